@@ -1,7 +1,74 @@
-import PvlModel.Model.Spec
+import PvlModel.Model.Cli
 /-!
-# C20
-(theorems are added below as they are proved; see DESIGN §5)
+# C20 — command-line tools are faithful front-ends
+
+`Model/Cli.lean` models what the tools add to the library: `pvl_validate`'s mapping from the outcome of
+`pvl.loads` / `pvl.dumps` to a verdict (`flavor`) and its report layout (`report`, `build_line`).  The
+library calls are parameters.  The check renders, with this model, the verdicts the *library* gives for
+each generated file and requires the text the real tool prints to be identical to the letter, for single
+files and for several files per invocation; `pvl_translate`'s output is compared with `pvl.dumps` by the
+encoder its format names.
+
+Theorems: the verdict says "Loads" only for texts the library loads, "Encodes" exactly when the dump
+succeeded, "does NOT encode" exactly when it was refused with one of the four documented exception types;
+and the printed line determines the verdict (no two verdicts print alike), so nothing is lost between the
+library's answer and the terminal.
 -/
-namespace Pvl
-end Pvl
+namespace Pvl.Cli
+
+/-- **C20, verdicts are the library's**: what each cell of the report can mean -/
+theorem C20_flavor_faithful (l : LoadOutcome) (d : DumpOutcome) :
+    ((flavor l d).1 = true → l = .ok) ∧
+    ((flavor l d).2 = some true ↔ (l = .ok ∧ d = .ok)) ∧
+    ((flavor l d).2 = some false ↔ (l = .ok ∧ d = .refused)) ∧
+    ((flavor l d).2 = none ↔ (flavor l d).1 = false) := by
+  cases l <;> cases d <;> simp [flavor]
+
+/-- the one case in which the report understates the library: the text loads, and `dumps` raises something
+    other than `LexerError`, `ParseError`, `ValueError`, `TypeError`; the exception reaches the outer bare
+    `except:` and the row reads "does NOT load".  (No encoder raises such an exception on any generated
+    module — the correspondence would show it as a row that differs from the library's verdict.) -/
+theorem C20_flavor_understates : flavor .ok .other = (false, none) := rfl
+
+theorem words_injective :
+    (∀ a b, loadsWord a = loadsWord b → a = b) ∧ (∀ a b, encodesWord a = encodesWord b → a = b) ∧
+    (∀ a b, loadsShort a = loadsShort b → a = b) ∧ (∀ a b, encodesShort a = encodesShort b → a = b) := by
+  refine ⟨by decide, ?_, by decide, ?_⟩
+  · intro a b; rcases a with _ | _ | _ <;> rcases b with _ | _ | _ <;> decide
+  · intro a b; rcases a with _ | _ | _ <;> rcases b with _ | _ | _ <;> decide
+
+/-- the cells of one report line, after the dialect name -/
+def cells (v : Verdict) : S :=
+  sepBar ++ center (loadsWord v.1) 13 ++ sepBar ++ center (encodesWord v.2) 15
+
+theorem lineOne_eq (flavors : List S) (name : S) (v : Verdict) :
+    lineOne flavors name v = ljust name (maxLen flavors) ++ cells v := by
+  have h2 : maxLen [loadsWord true, loadsWord false] = 13 := by decide
+  have h3 : maxLen [encodesWord (some true), encodesWord (some false), encodesWord none] = 15 := by decide
+  simp [lineOne, buildLine, joinWith, h2, h3, cells, List.append_assoc]
+
+/-- **C20, the printed line determines the verdict** -/
+theorem C20_line_injective (flavors : List S) (name : S) (v v' : Verdict)
+    (h : lineOne flavors name v = lineOne flavors name v') : v = v' := by
+  rw [lineOne_eq, lineOne_eq] at h
+  have hc := List.append_cancel_left h
+  revert hc
+  obtain ⟨a, b⟩ := v
+  obtain ⟨a', b'⟩ := v'
+  cases a <;> cases a' <;> rcases b with _ | _ | _ <;> rcases b' with _ | _ | _ <;> decide
+
+/-- blanks at both ends removed -/
+def strip (s : S) : S := ((s.dropWhile (· == ' ')).reverse.dropWhile (· == ' ')).reverse
+
+/-- centring only adds blanks: the cell content is what was put in -/
+theorem C20_center_strip (v : Verdict) :
+    strip (center (loadsWord v.1) 13) = loadsWord v.1 ∧ strip (center (encodesWord v.2) 15) = encodesWord v.2 := by
+  obtain ⟨a, b⟩ := v
+  cases a <;> rcases b with _ | _ | _ <;> decide
+
+/-- each output format of `pvl_translate` selects the writer of that name -/
+theorem C20_writer_table :
+    writerOf "PDS3" = some .pds3 ∧ writerOf "ODL" = some .odl ∧ writerOf "ISIS" = some .isis ∧
+    writerOf "PVL" = some .pvl ∧ writerOf "JSON" = some .json ∧ writerOf "pds3" = none := by decide
+
+end Pvl.Cli
